@@ -385,6 +385,19 @@ func main() {
 		fmt.Fprintf(&b, "    (%s, %s)%s\n", leanStr(n), leanStrList(skeletonOf(root, n)), sep)
 	}
 	b.WriteString("  ]\n")
+	// … and of the phase functions the Lean model transcribes function by function (Verif/Model/Flatten.lean)
+	b.WriteString("  phaseSkeletons := [\n")
+	phNames := []string{"normalizeRef", "removeUnusedSinglePass", "importExternalReferences", "importNewRef", "importKnownRef",
+		"nameInlinedSchemas", "namePointers", "flattenAnonPointer", "stripOAIGen", "updateRefParents", "stripOAIGenForRef",
+		"Name", "uniqifyName", "namesFromKey", "namesForParam", "namesForOperation", "nameFromRef"}
+	for i, n := range phNames {
+		sep := ","
+		if i == len(phNames)-1 {
+			sep = ""
+		}
+		fmt.Fprintf(&b, "    (%s, %s)%s\n", leanStr(n), leanStrList(skeletonOf(root, n)), sep)
+	}
+	b.WriteString("  ]\n")
 	_ = sort.Strings
 
 	if *out == "" {
